@@ -215,6 +215,10 @@ def matchDomain (sni : Str) : List Str → Option Str
   | [] => none
   | d :: r => if isImmediateSubdomain (lower sni) d then some d else matchDomain sni r
 
+/-- `strings.Cut(cliSrvName, ".")`, first result: the text before the first dot (the whole name when
+it has none). -/
+def sniLabel (sni : Str) : Str := sni.takeWhile (· ≠ '.')
+
 /-- `deviceDataFromCliSrvName`. -/
 def deviceDataFromSNI (domains : List Str) (sni : Str) : Option DevData :=
   if sni = [] then some .nothing
@@ -222,7 +226,7 @@ def deviceDataFromSNI (domains : List Str) (sni : Str) : Option DevData :=
     | none => some .nothing
     | some d =>
       if d = [] then some .nothing  -- `matchedDomain == ""` is "no match" in the code
-      else parseDeviceData (sni.take (sni.length - d.length - 1))
+      else parseDeviceData (sniLabel sni)
 
 /-- One EDNS option: code and payload. -/
 structure EOpt where
